@@ -28,7 +28,7 @@ TARGETS = ['valjean.gavroche.stat_tests.bonferroni:TestBonferroni.__init__',
            'valjean.gavroche.stat_tests.bonferroni:TestResultHolmBonferroni.__bool__',
            'valjean.gavroche.stat_tests.bonferroni:TestResultHolmBonferroni.oracles']
 BOUNDS = {
-    'quick': {'bins': 'm <= 3 (shapes (1,), (2,), (3,), (1,2))  and (2,2), C- or Fortran-ordered, for Bonferroni and for Holm-Bonferroni separately', 'datasets_compared': '1; 2 for m <= 2',
+    'quick': {'bins': 'm <= 3 (shapes (1,), (2,), (3,), (1,2))  and (2,2), C- or Fortran-ordered, for Bonferroni and for Holm-Bonferroni separately', 'datasets_compared': '1; 2 for m <= 2', 'history': 'both corrections applied earlier in the process at ANOTHER symbolic level to arrays of the same shape, m = 2 (3)',
               'p-values': 'symbolic reals in [0,1] or NaN (ties, zeros and ones included)', 'alpha': 'symbolic real in (0,1)',
               'student_jobs': 'real TestStudent as first test: shapes (2,), finite cells, ndf None',
               'shape-independence twins': '(2,)~(1,2)'},
@@ -139,13 +139,26 @@ def holm_oracle(ps, flags, levels, half_alpha):
     return O.bor(*alts)
 
 
-def make_harness(kind, shape, nds):
+def make_harness(kind, shape, nds, history=False):
     m = int(np.prod(shape, dtype=int))
 
     def harness(ex):
         bf, st, vt, vd = _mods()
         import contextlib
         with (numpy_facade(bf, vt) if ex.symbolic else contextlib.nullcontext()):
+            if history:
+                # both corrections were applied EARLIER in the process to arrays of the same shape at ANOTHER (symbolic) level:
+                # the observed evaluation must not depend on it
+                a0 = ex.real('alpha-earlier')
+                ex.assume(O.band(a0 > 0, a0 < 1))
+                pv0 = [sym_real_array(ex, f'q{k}', shape, special=False) for k in range(nds)]
+                for a in pv0:
+                    for cc in cells(a):
+                        if ex.symbolic:
+                            ex.side(O.band(cc >= 0, cc <= 1).t)
+                first0 = _stub_test(pv0, m)
+                bf.TestBonferroni(name='b0', test=first0, alpha=a0).evaluate()
+                bf.TestHolmBonferroni(name='h0', test=first0, alpha=a0).evaluate()
             alpha = _alpha(ex)
             pv = _pvals(ex, shape, nds)
             first = _stub_test(pv, m)
@@ -291,7 +304,7 @@ def _job(kind, timeout_ms, seed=0, **p):
     if kind == 'student':
         return run_sym('x', make_student(p['shape'], p['special'], p['with_ndf']), timeout_ms=timeout_ms, seed=seed,
                        logic='QF_NRA')
-    return run_sym('x', make_harness(kind, p['shape'], p['nds']), timeout_ms=timeout_ms, seed=seed)
+    return run_sym('x', make_harness(kind, p['shape'], p['nds'], p.get('history', False)), timeout_ms=timeout_ms, seed=seed)
 
 
 def jobs(tier):
@@ -315,6 +328,9 @@ def jobs(tier):
     if tier == 'quick':
         out.append(('bonf-(2, 2)-n1', _job, dict(kind='bonf', shape=(2, 2), nds=1, timeout_ms=t)))
         out.append(('holm-(2, 2)-n1', _job, dict(kind='holm', shape=(2, 2), nds=1, timeout_ms=t)))
+    # the same corrections applied earlier in the process at another level to arrays of the same shape
+    for shape in ([(2,)] if tier == 'quick' else [(2,), (3,)]):
+        out.append((f'both-{shape}-n1-after-another-level', _job, dict(kind='both', shape=shape, nds=1, history=True, timeout_ms=t)))
     twins = [((2,), (1, 2))] if tier == 'quick' else [((2,), (1, 2)), ((3,), (3, 1)), ((3,), (1, 3))]     # 4 cells: > 40 min per job
     for a, b in twins:
         out.append((f'twin-{a}-{b}', _job, dict(kind='twin', shape=a, shape_b=b, timeout_ms=t)))
@@ -336,6 +352,6 @@ def replay(rp):
             elif kind == 'student':
                 h = make_student(p['shape'], p['special'], p['with_ndf'])
             else:
-                h = make_harness(kind, p['shape'], p['nds'])
+                h = make_harness(kind, p['shape'], p['nds'], p.get('history', False))
             return replay_sym(h, rp['inputs'])
     raise KeyError(rp['job'])
